@@ -18,6 +18,7 @@ From TI Require Import model.RArgsVal proofs.RArgsValProofs.
 From TI Require Import model.RArgsSub proofs.RArgsSubProofs.
 From TI Require model.RArgsIntern proofs.RArgsInternProofs.
 From TI Require model.RArgsRel proofs.RArgsRelProofs.
+From TI Require model.RArgsShape proofs.RArgsShapeProofs.
 
 (** the invariant holds initially *)
 Theorem C16_initial_heap_wf : forall F, wf_forest F -> WF F heap0.
@@ -625,3 +626,62 @@ Theorem C16_compatibility_by_issubclass_refuted :
                 existsb (Nat.eqb c) (keys (RArgsRel.u_F U) t) = false.
 Proof. exact RArgsRelProofs.compatibility_by_issubclass_refuted. Qed.
 Print Assumptions C16_compatibility_by_issubclass_refuted.
+
+(** THE INITIAL SET x WHAT FOLLOWS.  Whether [K(cls, init, *nss)] raises
+    IncompatibleRenderArgsError is decided by the class of [init] and [cls] alone (rejected
+    exactly when the class of [init] is neither [cls] nor an ancestor): for EVERY heap (so
+    whether [init] is BASE_RENDER_ARGS, the interned default set of its class or any other set),
+    EVERY list of namespaces that follows (none, compatible, incompatible) and every type [K]. *)
+Theorem C16_initial_set_compatibility_independent_of_namespaces_and_defaultness : forall F,
+  (forall h k cls init nss,
+      RArgsShape.construct_p RArgsShape.CheckAlways F h k cls init nss = construct F h k cls init nss) /\
+  (forall h k cls i ki ci di nss,
+      getobj h i = Some (ki, ci, di) ->
+      (snd (construct F h k cls (Some i) nss) = Err EIncompatRA <-> anc F ci cls = false)) /\
+  (forall cls ci h k i ki di nss h' k' i' ki' di' nss',
+      getobj h i = Some (ki, ci, di) -> getobj h' i' = Some (ki', ci, di') ->
+      (snd (construct F h k cls (Some i) nss) = Err EIncompatRA <->
+       snd (construct F h' k' cls (Some i') nss') = Err EIncompatRA)).
+Proof. exact RArgsShapeProofs.initial_set_compatibility_independent. Qed.
+Print Assumptions C16_initial_set_compatibility_independent_of_namespaces_and_defaultness.
+
+(** the excluded design, the test run only "where the initial set is used" (without namespaces,
+    or when a non-default initial set is copied): the interned default set of a sibling class
+    followed by a namespace is accepted, against the rule *)
+Theorem C16_initial_set_compatibility_independent_of_namespaces_and_defaultness_refuted :
+  exists F h k cls i ki ci di nss id,
+    getobj h i = Some (ki, ci, di) /\ anc F ci cls = false /\
+    snd (RArgsShape.construct_p RArgsShape.CheckWhenUsed F h k cls (Some i) nss) = Ok id /\
+    snd (construct F h k cls (Some i) nss) = Err EIncompatRA /\
+    spec_construct F cls (Some {| s_cls := ci; s_ns := dget di |}) nss = Err EIncompatRA /\
+    snd (RArgsShape.construct_p RArgsShape.CheckWhenUsed F h k cls (Some i) []) = Err EIncompatRA.
+Proof. exact RArgsShapeProofs.check_only_when_used_refuted. Qed.
+Print Assumptions C16_initial_set_compatibility_independent_of_namespaces_and_defaultness_refuted.
+
+(** THE SHAPE OF THE CLASS STATEMENT.  Render class statements may list plain (non-render)
+    mix-in classes before and after the render base, in any class of the chain.  For every
+    forest, every placement [mx] and every class [c]: the render classes the metaclass visits
+    in [c.__mro__] are [c] and its ancestors by inheritance, the owner classes whose default
+    namespace a set for [c] holds are exactly the rule's ([in_hierarchy] mentions neither
+    mix-ins nor the MRO), and nothing depends on the mix-ins. *)
+Theorem C16_mixins_do_not_cut_the_hierarchy : forall F mx c,
+  RArgsShape.walk RArgsShape.SkipNonRender (RArgsShape.mro F mx c) = chain F c /\
+  RArgsShape.held RArgsShape.SkipNonRender F mx c = keys F c /\
+  (forall a, existsb (Nat.eqb a) (RArgsShape.held RArgsShape.SkipNonRender F mx c) =
+             RArgsShape.in_hierarchy F c a) /\
+  (forall mx', RArgsShape.held RArgsShape.SkipNonRender F mx' c =
+               RArgsShape.held RArgsShape.SkipNonRender F mx c) /\
+  defaults F c = map (fun k => (k, dflt F k)) (RArgsShape.held RArgsShape.SkipNonRender F mx c).
+Proof. exact RArgsShapeProofs.mixins_do_not_cut_the_hierarchy. Qed.
+Print Assumptions C16_mixins_do_not_cut_the_hierarchy.
+
+(** the excluded design, the walk over the MRO stopped at the first non-render class: the same
+    on statements without mix-ins, but a mix-in listed before the render base cuts off an
+    ancestor that owns a namespace class *)
+Theorem C16_mixins_do_not_cut_the_hierarchy_refuted :
+  (forall F c, RArgsShape.held RArgsShape.StopAtNonRender F RArgsShape.no_mixes c = keys F c) /\
+  (exists F mx c a, RArgsShape.in_hierarchy F c a = true /\
+                    existsb (Nat.eqb a) (RArgsShape.held RArgsShape.StopAtNonRender F mx c) = false /\
+                    existsb (Nat.eqb a) (RArgsShape.held RArgsShape.SkipNonRender F mx c) = true).
+Proof. exact RArgsShapeProofs.stop_at_first_non_render_class_refuted. Qed.
+Print Assumptions C16_mixins_do_not_cut_the_hierarchy_refuted.
